@@ -73,7 +73,7 @@ Fixpoint lleqb (a b : list (list N)) : bool :=
   match a, b with [], [] => true | x :: a', y :: b' => beqb x y && lleqb a' b' | _, _ => false end.
 Definition weqb (r : list visit * action) (e : list (list N) * N) : bool :=
   lleqb (map (fun v => ob_code (v_info v) :: on_code (v_err v) :: v_path v) (fst r)) (fst e) && N.eqb (act_code (snd r)) (snd e).
-Definition geqb (r : gres) (e : list (list N) * N) : bool :=
+Definition geqb (r : glob_res) (e : list (list N) * N) : bool :=
   lleqb (fst r) (fst e) && N.eqb (match snd r with GNil => 0 | GBadPattern => 1 | GOutOfFuel => 2 end) (snd e).
 Definition meqb (r : option bool) (e : N) : bool :=
   N.eqb (match r with Some false => 0 | Some true => 1 | None => 2 end) e.
